@@ -902,6 +902,35 @@ func runC14(r *Run) {
 			c := base
 			c.depth = lim(u.depth)
 			try("depth", c, u.depth, c.depth, false)
+			// the same limit through the codecs: the CTE decoder applies the depth limit to the token
+			// stream before parsing, the CBE decoder leaves it to the rules - the verdict must be the same
+			for _, format := range []string{"cte", "cbe"} {
+				dcfg := c.config()
+				var doc []byte
+				var eerr error
+				if format == "cte" {
+					doc, eerr = cteEncode(evs, configuration.New())
+				} else {
+					doc, eerr = cbeEncode(evs, configuration.New())
+				}
+				if eerr != nil {
+					continue
+				}
+				var derr error
+				if format == "cte" {
+					_, derr = cteDecode(doc, dcfg, true)
+				} else {
+					_, derr = cbeDecode(doc, dcfg, true)
+				}
+				over := u.depth > c.depth
+				r.out.Count("limit:depth-via-" + format)
+				if over && derr == nil {
+					r.out.Finding("C14", "over-limit-accepted:depth-via-"+format, fmt.Sprintf("depth %d exceeds the limit %d but the %s decoder with rules accepts the document", u.depth, c.depth, format), text)
+				}
+				if !over && derr != nil {
+					r.out.Finding("C14", "within-limit-rejected:depth-via-"+format, fmt.Sprintf("depth %d is within the limit %d but the %s decoder with rules rejects the document: %v", u.depth, c.depth, format, derr), text+" doc "+trunc(hx(doc), 400))
+				}
+			}
 			c = base
 			c.objects = lim(u.objects)
 			try("objects", c, u.objects, c.objects, false)
